@@ -119,6 +119,9 @@ func (e *Eval) registerSkillCB(c *ast.CallExpr, env *Env) (Obj, error) {
 	target := objs[0].(*number).ival
 	fn := objs[1].(*funcval)
 
+	if len(fn.Args) > len(c.Args) {
+		return nil, fmt.Errorf("callback takes %v params, at most %v can be bound", len(fn.Args), len(c.Args))
+	}
 	node := TargetNode{
 		target: key.TargetID(target),
 		env:    NewEnv(env),
@@ -144,6 +147,9 @@ func (e *Eval) registerUltCB(c *ast.CallExpr, env *Env) (Obj, error) {
 	target := objs[0].(*number).ival
 	fn := objs[1].(*funcval)
 
+	if len(fn.Args) > len(c.Args) {
+		return nil, fmt.Errorf("callback takes %v params, at most %v can be bound", len(fn.Args), len(c.Args))
+	}
 	node := TargetNode{
 		target: key.TargetID(target),
 		env:    NewEnv(env),
